@@ -492,7 +492,17 @@ fn deep(kind: u8, depth: u32, case: &Case, cx: &mut Cx) -> CheckResult {
                 let (x, y, z) = Tree::axes();
                 let mut t = x.clone();
                 for i in 0..depth {
-                    t = match kind % 6 {
+                    t = match kind % 8 {
+                        // both operands are the SAME allocation: the child's only
+                        // other owner is the node itself
+                        6 => t.clone() + t,
+                        7 => {
+                            if i % 2 == 0 {
+                                t.clone().min(t)
+                            } else {
+                                t.clone() * t
+                            }
+                        }
                         0 => t + 1.0,
                         1 => Tree::constant(1.0) - t,
                         2 => {
@@ -515,6 +525,25 @@ fn deep(kind: u8, depth: u32, case: &Case, cx: &mut Cx) -> CheckResult {
                 t
             };
             let a = build();
+            if kind % 8 >= 6 {
+                // a chain whose two operands are one allocation is a DAG with
+                // 2^depth paths: comparing or hashing two separately built
+                // copies walks all of them (a matter of time, not of stack, and
+                // outside the claim).  Build, compare with a clone (pointer
+                // shortcut), import (cached by pointer), export, drop.
+                let c = a.clone();
+                if a != c {
+                    return Err("a deep tree differs from its clone".into());
+                }
+                let mut ctx = Context::new();
+                let na = ctx.import(&a);
+                if ctx.import(&c) != na {
+                    return Err("importing a clone of a deep tree gave a different node".into());
+                }
+                drop(c);
+                drop(a);
+                return Ok(());
+            }
             let b = build();
             if a != b {
                 return Err("deep trees of the same expression compare unequal".into());
@@ -544,7 +573,7 @@ fn deep(kind: u8, depth: u32, case: &Case, cx: &mut Cx) -> CheckResult {
         .join();
     match r {
         Ok(Ok(())) => {
-            cx.ev.count(&format!("deep_kind_{}", kind % 6));
+            cx.ev.count(&format!("deep_kind_{}", kind % 8));
             cx.ev.nontrivial(case);
             Ok(())
         }
@@ -579,14 +608,14 @@ impl Prop for P {
                 points,
                 mutate,
             });
-        let deep = (0u8..6, 20_000u32..=tier.pick(60_000, 300_000))
+        let deep = (0u8..8, 20_000u32..=tier.pick(60_000, 300_000))
             .prop_map(|(kind, depth)| Case::Deep { kind, depth });
         prop_oneof![400 => meaning, 1 => deep].boxed()
     }
 
     fn fixed_cases(tier: Tier) -> Vec<Case> {
         let d = tier.pick(200_000, 1_000_000);
-        (0..6).map(|kind| Case::Deep { kind, depth: d }).collect()
+        (0..8).map(|kind| Case::Deep { kind, depth: d }).collect()
     }
 
     fn check(case: &Case, cx: &mut Cx) -> CheckResult {
@@ -660,7 +689,7 @@ impl Prop for P {
          Context constructors, (b) through Tree operators + import, (c) through the text format + from_text must be == to \
          it. Structural: building twice gives the same nodes and adds none; import(export(n)) == n; two separately \
          allocated trees of one expression are == and hash equal and differ from a one-node mutation. Deep: expressions \
-         of depth 2e4..1e6 (left-deep, right-deep, unary, remap_xyz target and axis chains, mixed) are built, compared, \
+         of depth 2e4..1e6 (left-deep, right-deep, unary, remap_xyz target and axis chains, mixed, and chains whose two operands are one allocation) are built, compared, \
          hashed, imported, exported and dropped on a 2 MiB stack. Non-trivial (Meaning) = the context has fewer reachable \
          nodes than the expression (a rewrite fired), at least one decisive evaluation, result not a constant."
     }
